@@ -55,20 +55,23 @@ pub fn execute(ctx: &mut Ctx, lines: &[String]) -> Vec<String> {
                 }
                 hex(&got)
             }
-            ["RECURSE", mode, target] => {
-                let (finished, data) = crate::props::robust::run_recurse(&ctx.work, mode, target, 4);
+            ["RECURSE", mode, target, ..] if t.len() <= 4 => {
+                let depth: u32 = t.get(3).and_then(|d| d.parse().ok()).unwrap_or(1);
+                let (finished, data) = crate::props::robust::run_recurse(&ctx.work, mode, target, 4, depth);
                 ctx.report.count(&format!("recurse.{}.{target}", mode.split(':').next().unwrap()));
                 ctx.report.nontrivial_case(lines);
                 if !finished {
                     // reproduce once with a doubled bound before calling it a hang
-                    let (again, _) = crate::props::robust::run_recurse(&ctx.work, mode, target, 8);
+                    let (again, _) = crate::props::robust::run_recurse(&ctx.work, mode, target, 8, depth);
                     if !again {
                         ctx.report.fail(&case_id, &format!("recursion-hangs-{mode}-{target}"), &format!("line {li}: a log call from within Display (mode {mode}, output {target}) did not return within 8 s (twice)"));
                         out.push("hang".into());
                         continue;
                     }
                 }
-                let want = b"inner1\nouter x1\nplain\n";
+                let mut want = b"inner1\n".to_vec();
+                for j in 2..=depth { want.extend(format!("inner{j} x{}\n", j - 1).bytes()); }
+                want.extend(format!("outer x{depth}\nplain\n").bytes());
                 if finished && data != want {
                     ctx.report.fail(&case_id, "recursion-output", &format!("line {li}: recursive logging (mode {mode}, output {target}) produced {:?}", String::from_utf8_lossy(&data)));
                 }
